@@ -66,6 +66,16 @@ func ufBytes(name string, in []value, m int) []value {
 
 var ufMemo = map[string][]string{}
 
+// the password bytes handed to the key-derivation function by its last call
+var lastKDFInput []value
+
+func init() {
+	pathResets = append(pathResets, func() { lastKDFInput = nil })
+	Intrinsics["symLastKDFInput"] = func(fr *frame, a []value) value {
+		return append([]value{}, lastKDFInput...)
+	}
+}
+
 func arrBytes(p value) []value {
 	return []value((*p.(*value)).(array))
 }
@@ -192,6 +202,7 @@ func init() {
 	}
 	H["golang.org/x/crypto/argon2.IDKey"] = func(fr *frame, a []value) value {
 		pw, salt := a[0].([]value), a[1].([]value)
+		lastKDFInput = append([]value{}, pw...)
 		return ufBytes("argon2id", cat(pw, salt), int(a[5].(uint32)))
 	}
 	H["(*encoding/base64.Encoding).EncodeToString"] = func(fr *frame, a []value) value {
